@@ -1,10 +1,12 @@
 // C05 — builds always terminate and report failure faithfully.
 // Monitor: generated repositories with one injected failure (failing command, missing declared
 // output, BUILD syntax error, undefined dependency, missing package, dependency cycle, failing
-// subinclude target, non-existent requested target) or none, built with and without --keep_going under
+// subinclude target, non-existent requested target; and, directed, a fan-in whose failing dependency comes
+// later in the scheduler's wait order than a slow sibling) or none, built with and without --keep_going under
 // varied parallelism and delay injection. Oracles: a reference "can this request be built" closure
 // computed on the generated graph decides the expected exit class (zero / non-zero); the action probe
-// shows whether any command ran although one of its dependencies failed; a generous watchdog whose
+// shows whether any command ran although one of its dependencies failed and the verifhook trace whether
+// any build step was started for such a target; a generous watchdog whose
 // firing is classified by CPU progress / live children / goroutine dump decides hangs.
 package c05
 
@@ -25,6 +27,7 @@ type injection struct {
 	Kind   string   `json:"kind"`
 	Detail string   `json:"detail"`
 	Failed []string `json:"failed_targets"` // labels that cannot be built because of the injection
+	top    string   // fanin-fail: the target with the slow and the failing dependency
 }
 
 // downstreamOf returns a predicate: does label's closure (other than itself) contain a failed target?
@@ -94,6 +97,14 @@ func inject(rng *rand.Rand, state *e2e.Repo, kind string) (injection, bool) {
 				}
 			}
 		}
+	case "fanin-fail":
+		f, ok := shapeFanInFailure(rng, state)
+		if !ok {
+			return inj, false
+		}
+		inj.Detail = fmt.Sprintf("%s (top %s, slow sibling %s, via %s)", f.Fail, f.Top, f.Slow, f.Via)
+		inj.Failed = []string{f.Fail}
+		inj.top = f.Top
 	case "defs-fail":
 		if !state.Defs {
 			return inj, false
@@ -108,12 +119,13 @@ func inject(rng *rand.Rand, state *e2e.Repo, kind string) (injection, bool) {
 	return inj, true
 }
 
+// ("fanin-fail" is not drawn from this list: it is assigned to the cases 4 mod 6)
 var kinds = []string{"none", "exit1", "exit1", "missingout", "syntax-error", "undefined-dep", "missing-package", "cycle", "defs-fail", "bad-request"}
 
 func TestC05(t *testing.T) {
 	r := lib.Start("C05")
 	defer lib.End(t, r)
-	r.Rule = "case = one `plz build` invocation on a generated repository with one injected failure kind (or none; a third of the failing cases get a second, different failure elsewhere in the repository), request //... or a single target (inside or outside the failing region), --keep_going on/off, -n in {1,4,16}, delay injection at scheduler hook points, a third of the cases on the race-built binary; distinct by (repository, request, flags); non-trivial = a failure was injected and at least one command still ran"
+	r.Rule = "case = one `plz build` invocation on a generated repository with one injected failure kind (or none; a third of the failing cases get a second, different failure elsewhere in the repository; cases 4 mod 6 get the directed fan-in failure: a target with a slow dependency and, later in label order, a dependency that fails at once, --keep_going in 5 of 6), request //... or a single target (inside or outside the failing region), --keep_going on/off, -n in {1,4,16}, delay injection at scheduler hook points, a third of the cases on the race-built binary; distinct by (repository, request, flags); non-trivial = a failure was injected and at least one command still ran"
 	r.Assumes = []string{"expected exit class comes from reachability on the generated graph; exit codes are only classed zero / non-zero", "bounded time is decided as: not quiescent-hung when a 120 s watchdog fires (cycle detection legitimately waits 5 s); a busy process at the watchdog is inconclusive"}
 	n := r.Pick(120, 4000)
 	cycleBudget := n / 5
@@ -128,6 +140,12 @@ func TestC05(t *testing.T) {
 			// cycles cost 5 s each by design; keep them to about a fifth of the cases
 			kind = "exit1"
 		}
+		// Directed: a sixth of the cases get the fan-in shape (a target with a slow dependency and, later in label
+		// order, one that fails at once), nearly always with --keep_going, several threads and a request that needs it.
+		fanin := i%6 == 4
+		if fanin {
+			kind = "fanin-fail"
+		}
 		var inj injection
 		ok := false
 		if kind == "bad-request" {
@@ -137,6 +155,7 @@ func TestC05(t *testing.T) {
 		}
 		if !ok {
 			inj, _ = inject(rng, state, "none")
+			fanin = false
 		}
 		// A third of the failing cases get a second, different failure elsewhere in the same repository
 		// (e.g. a failing command plus an unrelated dependency cycle): the two must not mask each other.
@@ -191,6 +210,22 @@ func TestC05(t *testing.T) {
 		}
 		keepGoing := rng.Intn(2) == 0
 		threads := []int{1, 4, 16}[rng.Intn(3)]
+		if fanin {
+			keepGoing = rng.Intn(6) != 0
+			threads = []int{2, 4, 16}[rng.Intn(3)]
+			if request != "//..." && !state.Closure(request)[inj.top] {
+				// ask for something that needs the fan-in: the target itself or one of its dependents
+				var need []string
+				for _, tg := range state.Targets {
+					if state.Closure(tg.Label())[inj.top] {
+						need = append(need, tg.Label())
+					}
+				}
+				request = need[rng.Intn(len(need))]
+				expectFail = true
+			}
+			r.Obs("fanin_failure_cases", 1)
+		}
 		race := i%3 == 0
 		bin := lib.PlzBin(race)
 		args := []string{"build", "-n", fmt.Sprint(threads)}
@@ -198,7 +233,8 @@ func TestC05(t *testing.T) {
 			args = append(args, "--keep_going")
 		}
 		args = append(args, request)
-		env := []string{fmt.Sprintf("VERIF_HOOK_DELAY=%d:%g:%d", rng.Int63n(1<<30), []float64{0, 0.1, 0.3}[rng.Intn(3)], []int{0, 500, 3000}[rng.Intn(3)])}
+		trace := filepath.Join(sb.Work, "trace")
+		env := []string{"VERIF_TRACE=" + trace, fmt.Sprintf("VERIF_HOOK_DELAY=%d:%g:%d", rng.Int63n(1<<30), []float64{0, 0.1, 0.3}[rng.Intn(3)], []int{0, 500, 3000}[rng.Intn(3)])}
 		res := sb.PlzWatched(bin, env, 120*time.Second, args...)
 		probe := sb.ReadProbe()
 		r.Case(lib.JSON(state.AllFiles())+strings.Join(args, " "), inj.Kind != "none" && len(probe.Started) > 0)
@@ -246,6 +282,18 @@ func TestC05(t *testing.T) {
 				}
 			}
 		}
+		// ... nor starts its build step (which would then fail on its own account, or, for a target without a command such
+		// as a filegroup, "succeed" and let everything behind it run)
+		evs, _ := e2e.ReadTrace(trace)
+		sum, _ := e2e.CheckTrace(evs, false)
+		r.Obs("trace_events", int64(sum.Events))
+		r.Obs("build_steps_started", int64(sum.BuildStarts))
+		for _, l := range sum.Started {
+			if state.Target(l) != nil && dependsOnFailed(state, failed, l) {
+				r.Violation("build-step-started-after-failed-dependency/"+inj.Kind, fmt.Sprintf("the build step of %s was started although a dependency cannot be built (%s %s)", l, inj.Kind, inj.Detail), wit, i)
+				break
+			}
+		}
 		for _, v := range probe.Violations {
 			f := strings.Fields(v)
 			r.Violation("probe-"+f[0]+"/"+inj.Kind, "action probe: "+v, wit, i)
@@ -280,5 +328,5 @@ func TestC05(t *testing.T) {
 			r.Sample(map[string]any{"injection": inj, "args": args, "exit": res.Exit, "commands_ran": len(probe.Started), "targets": len(state.Targets)})
 		}
 	})
-	r.RequireObserved("invocations", "expected_nonzero", "expected_zero", "commands_executed")
+	r.RequireObserved("invocations", "expected_nonzero", "expected_zero", "commands_executed", "trace_events")
 }
